@@ -821,6 +821,39 @@ class Ctx:
             out[name] = _zval(zv)
         return out
 
+    def nice_model(self, neg, margin=None):
+        """After `pc & neg` was found sat: look for a model that replays robustly on float64 —
+        inputs on a dyadic lattice (exactly representable), bounded, and with a visible margin."""
+        best = self.model_of()
+        if self.nonlinear:
+            tries = [margin] if margin is not None else []
+            lattice = False
+        else:
+            tries = ([margin] if margin is not None else []) + [neg]
+            lattice = True
+        for extra in tries:
+            s = z3.Solver() if lattice else z3.Tactic("qfnra-nlsat").solver()
+            s.set("timeout", 3000)
+            for c, _ in self.pc:
+                s.add(c.z3())
+            s.add(neg.z3() if isinstance(neg, SymBool) else neg)
+            if extra is not None and extra is not neg:
+                s.add(extra.z3())
+            for name, v in self.input_vars.items():
+                (idx,), = v.p.keys()
+                zv = self.z3vars[idx]
+                s.add(zv >= -64, zv <= 64)
+                if lattice:
+                    k = z3.Int("k!" + name)
+                    s.add(zv * 16 == z3.ToReal(k))
+            if s.check() == z3.sat:
+                self._last_model = s.model()
+                return self.model_of()
+        return best
+
+    def exact(self, v):
+        return Sym.lift(v)
+
     def model_all(self):
         m = self._last_model
         return {n: _zval(m.eval(v, model_completion=True)) for n, v in zip(self.var_names, self.z3vars)}
@@ -965,6 +998,10 @@ class ConcreteCtx:
     def same(self, a, b):
         return self.eq(a, b)
 
+    def exact(self, v):
+        """exact rational value of a float (for oracles that only compare inputs)"""
+        return Fraction(float(v))
+
     def is_finite(self, a):
         return _finite(a)
 
@@ -1021,6 +1058,8 @@ class Explorer:
         self.truncated = False
         self.nonfinite_is_violation = True
         self.reached = set()
+        self.reach_checked = False
+        self.margin_fn = None
 
     def push_work(self, prefix):
         self.work.append(prefix)
@@ -1056,7 +1095,7 @@ class Explorer:
         except NonFinite as e:
             st.paths_nonfinite += 1
             if self.nonfinite_is_violation:
-                r = ctx.check()
+                r = ctx.check(z3.BoolVal(True))
                 if r == "sat":
                     self.candidates.append(("finite-values: " + e.what, ctx.model_of(), list(ctx.decisions), None))
                     st.obligations += 1
@@ -1078,7 +1117,11 @@ class Explorer:
                     r = ctx.check(z3.BoolVal(True))
                     if r == "sat":
                         st.sat += 1
-                        self.candidates.append((name, ctx.model_of(), list(ctx.decisions), info))
+                        try:
+                            model = ctx.nice_model(z3.BoolVal(True))
+                        except z3.Z3Exception:
+                            model = ctx.model_of()
+                        self.candidates.append((name, model, list(ctx.decisions), info))
                     elif r == "unsat":
                         st.discharged += 1
                     else:
@@ -1097,10 +1140,18 @@ class Explorer:
                 st.discharged += 1
             elif r == "sat":
                 st.sat += 1
-                self.candidates.append((name, ctx.model_of(), list(ctx.decisions), info))
+                try:
+                    model = ctx.nice_model(neg, self.margin_fn(cond) if self.margin_fn else None)
+                except z3.Z3Exception:
+                    model = ctx.model_of()
+                self.candidates.append((name, model, list(ctx.decisions), info))
             else:
                 st.inconclusive += 1
                 self.inconclusive.append((name, list(ctx.decisions)))
+        if not self.reach_checked:
+            self.reach_checked = True
+            if ctx.check(z3.BoolVal(True)) == "sat":
+                st.reach_ok += 1
         if len(self.samples) < 3:
             self.samples.append({
                 "decisions": [bool(d) for d in ctx.decisions[:40]],
